@@ -20,7 +20,7 @@ Proof. repeat split; reflexivity. Qed.
 Print Assumptions C16_defaults.
 
 (* whatever the configuration held before (weaker MinVersion / ClientAuth included), after the call the
-   fields that decide who is admitted are the defaults: the assignments are unconditional *)
+   fields that decide who is cleared are the defaults: the assignments are unconditional *)
 Theorem C16_overwrites_weaker_settings : forall c0 c,
   apply_assignments gen_DefaultServerTLSConfig c0 = Some c -> min_version c = 771 /\ cauth c = RequireAndVerifyClientCert.
 Proof. intros c0 c H. cbn in H. injection H as <-. split; reflexivity. Qed.
